@@ -5,6 +5,7 @@ C14 — A crash while writing never leaves a file that opens with wrong contents
 import SevenZ.Lemmas.Crc32
 import SevenZ.Lemmas.Crash
 import SevenZ.Model.Crash
+import SevenZ.Lemmas.AppendStep
 namespace SevenZ.C14
 open SevenZ SevenZ.Impl
 
@@ -208,7 +209,186 @@ theorem session_encoded_crash_verdict {σ} (cfg : WConfig σ) (hcfg : HConfig σ
   · exact Or.inr (Or.inl h2)
   · exact Or.inr (Or.inr ⟨ofs, size, crc, j, hj, h3, h4⟩)
 
+/-- **What a crash can leave of an append session.** The base is any archive of the shape py7zr writes (signature
+    header, packed streams `area`, header `hdrOld`, possibly bytes `junk` an earlier longer file left); the session
+    writes `tail` (new packed data, then the new header) from the end of the old packed streams on -- over the old
+    header -- and the new signature header last. Wherever the write sequence is cut, the image
+    * is rejected by the reader's gates (start-header CRC, then header CRC), or
+    * passes them with the OLD header bytes while everything before the old header is untouched: it reads as the
+      archive before the session, or
+    * is byte for byte the completed archive, or
+    * exhibits a CRC-32 collision: between the old header and what overwrote it, or between the new signature
+      header's 20 field bytes and a mix of new and old ones. -/
+theorem append_crash_verdict (area hdrOld junk tail : Bytes) (ofs size crc : Nat) (n k : Nat)
+    (ha : area.length < 2 ^ 64) (hh : hdrOld.length < 2 ^ 64) :
+    let sigOld := sigHeaderBytes area.length hdrOld.length (crc32 hdrOld)
+    let base := sigOld ++ area ++ (hdrOld ++ junk)
+    let ops := appendOps (32 + area.length) (sigHeaderBytes ofs size crc) tail
+    let img := crashImage base ops n k
+    headerGate img = none ∨
+    (headerGate img = some hdrOld ∧ img.take (32 + area.length) = base.take (32 + area.length)) ∨
+    img = applyAll base ops ∨
+    ∃ a b : Bytes, a.length = b.length ∧ a ≠ b ∧ crc32 a = crc32 b ∧ (b = hdrOld ∨ b = sigFields ofs size crc) := by
+  intro sigOld base ops img
+  have hso : sigOld.length = 32 := sigBytes_length _ _ _
+  have hsn := sigBytes_length ofs size crc
+  have hP : (sigOld ++ area).length = 32 + area.length := by simp [hso]
+  -- the image after the data write, complete or cut after `t`
+  have hover : ∀ t, applyWrite base ⟨32 + area.length, t⟩ = sigOld ++ area ++ (t ++ (hdrOld ++ junk).drop t.length) := by
+    intro t; rw [← hP]; exact applyWrite_over _ _ _
+  have htake : ∀ t, (sigOld ++ area ++ (t ++ (hdrOld ++ junk).drop t.length)).take (32 + area.length) = base.take (32 + area.length) := by
+    intro t; rw [← hP, List.take_left' rfl, List.take_left' rfl]
+  -- verdict for an image that still carries the old signature header
+  have hold : ∀ t, let im := sigOld ++ area ++ (t ++ (hdrOld ++ junk).drop t.length)
+      headerGate im = none ∨ (headerGate im = some hdrOld ∧ im.take (32 + area.length) = base.take (32 + area.length)) ∨
+      ∃ a b : Bytes, a.length = b.length ∧ a ≠ b ∧ crc32 a = crc32 b ∧ (b = hdrOld ∨ b = sigFields ofs size crc) := by
+    intro t im
+    rcases old_sig_verdict area hdrOld junk t ha hh with h | h | ⟨a, h1, h2, h3⟩
+    · exact Or.inl h
+    · exact Or.inr (Or.inl ⟨h, htake t⟩)
+    · exact Or.inr (Or.inr ⟨a, hdrOld, h1, h2, h3, Or.inl rfl⟩)
+  have hfinal : applyAll base ops = sigHeaderBytes ofs size crc ++ (area ++ (tail ++ (hdrOld ++ junk).drop tail.length)) := by
+    simp only [ops, applyAll, appendOps, List.foldl_cons, List.foldl_nil]
+    rw [hover tail, applyWrite_zero, hsn, List.append_assoc, List.drop_left' hso]
+  obtain rfl | rfl | ⟨m, rfl⟩ : n = 0 ∨ n = 1 ∨ ∃ m, n = m + 2 := by
+    rcases n with _ | _ | m
+    · exact Or.inl rfl
+    · exact Or.inr (Or.inl rfl)
+    · exact Or.inr (Or.inr ⟨m, rfl⟩)
+  · have e : img = sigOld ++ area ++ (tail.take k ++ (hdrOld ++ junk).drop (tail.take k).length) := by
+      simp only [img, ops, crashImage, appendOps, List.take_zero, applyAll, List.foldl_nil, List.getElem?_cons_zero]
+      exact hover _
+    rw [e]
+    rcases hold (tail.take k) with h | h | h
+    · exact Or.inl h
+    · exact Or.inr (Or.inl h)
+    · exact Or.inr (Or.inr (Or.inr h))
+  · have e : img = (sigHeaderBytes ofs size crc).take k ++
+        (sigOld ++ (area ++ (tail ++ (hdrOld ++ junk).drop tail.length))).drop ((sigHeaderBytes ofs size crc).take k).length := by
+      simp only [img, ops, crashImage, appendOps, applyAll, List.take_succ_cons, List.take_zero, List.foldl_cons, List.foldl_nil,
+        List.getElem?_cons_succ, List.getElem?_cons_zero]
+      rw [hover tail, applyWrite_zero, List.append_assoc]
+    by_cases hk : 32 ≤ k
+    · right; right; left
+      rw [e, hfinal, List.take_of_length_le (by omega), hsn, List.drop_left' hso]
+    · have hk' : k ≤ 32 := by omega
+      have e2 : img = ((sigHeaderBytes ofs size crc).take k ++ sigOld.drop k) ++ (area ++ (tail ++ (hdrOld ++ junk).drop tail.length)) := by
+        rw [e, List.length_take, hsn, Nat.min_eq_left hk', List.drop_append_of_le_length (by omega), List.append_assoc]
+      have hA : (magic ++ [0, 4]).length = 8 := by decide
+      have hFn : (sigFields ofs size crc).length = 20 := by simp [sigFields, leBytes_length]
+      have hFo : (sigFields area.length hdrOld.length (crc32 hdrOld)).length = 20 := by simp [sigFields, leBytes_length]
+      have hbFn : IsBytes (sigFields ofs size crc) :=
+        isBytes_append (isBytes_append (leBytes_isBytes _ _) (leBytes_isBytes _ _)) (leBytes_isBytes _ _)
+      have hbFo : IsBytes (sigFields area.length hdrOld.length (crc32 hdrOld)) :=
+        isBytes_append (isBytes_append (leBytes_isBytes _ _) (leBytes_isBytes _ _)) (leBytes_isBytes _ _)
+      have hDold : sigOld ++ (area ++ (tail ++ (hdrOld ++ junk).drop tail.length)) =
+          sigOld ++ area ++ (tail ++ (hdrOld ++ junk).drop tail.length) := by simp [List.append_assoc]
+      have hsoP : sigOld = magic ++ [0, 4] ++ leBytes (crc32 (sigFields area.length hdrOld.length (crc32 hdrOld))) 4 ++
+          sigFields area.length hdrOld.length (crc32 hdrOld) := sig_parts _ _ _
+      rw [e2, sig_parts ofs size crc, hsoP]
+      rcases torn_sig_cases (magic ++ [0, 4]) (leBytes (crc32 (sigFields ofs size crc)) 4)
+        (leBytes (crc32 (sigFields area.length hdrOld.length (crc32 hdrOld))) 4)
+        (sigFields ofs size crc) (sigFields area.length hdrOld.length (crc32 hdrOld)) hA (leBytes_length _ _) (leBytes_length _ _)
+        hFn hFo k hk' with h | ⟨j, _, _, h⟩ | ⟨j, hj, h⟩
+      · rw [h, ← hsoP, hDold]
+        rcases hold tail with h | h | h
+        · exact Or.inl h
+        · exact Or.inr (Or.inl h)
+        · exact Or.inr (Or.inr (Or.inr h))
+      · -- tear inside the start-header CRC field: the fields are the old ones
+        rw [h]
+        by_cases hmix : (leBytes (crc32 (sigFields ofs size crc)) 4).take j ++
+            (leBytes (crc32 (sigFields area.length hdrOld.length (crc32 hdrOld))) 4).drop j =
+            leBytes (crc32 (sigFields area.length hdrOld.length (crc32 hdrOld))) 4
+        · rw [hmix, ← hsoP, hDold]
+          rcases hold tail with h | h | h
+          · exact Or.inl h
+          · exact Or.inr (Or.inl h)
+          · exact Or.inr (Or.inr (Or.inr h))
+        · left
+          apply headerGate_none_of_start
+          rw [startHeaderOk_parts _ _ _ (by simp [leBytes_length]; omega) hFo]
+          simp only [beq_eq_false_iff_ne, ne_eq]
+          intro hcontra
+          apply hmix
+          apply ofLE_inj_of_isBytes _ _ (by simp [leBytes_length]; omega)
+            (isBytes_append (isBytes_take (leBytes_isBytes _ _) _) (isBytes_drop (leBytes_isBytes _ _) _)) (leBytes_isBytes _ _)
+          rw [← hcontra, ofLE_leBytes, Nat.mod_eq_of_lt (by
+            have := crc32_lt (sigFields area.length hdrOld.length (crc32 hdrOld)); omega)]
+      · -- tear inside the 20 field bytes: the start-header CRC is the new one
+        rw [h]
+        by_cases heq : (sigFields ofs size crc).take j ++ (sigFields area.length hdrOld.length (crc32 hdrOld)).drop j = sigFields ofs size crc
+        · right; right; left
+          rw [heq, ← sig_parts, hfinal]
+        · by_cases hc : crc32 ((sigFields ofs size crc).take j ++ (sigFields area.length hdrOld.length (crc32 hdrOld)).drop j) =
+              crc32 (sigFields ofs size crc)
+          · right; right; right
+            exact ⟨_, sigFields ofs size crc, by simp [hFn, hFo]; omega, heq, hc, Or.inr rfl⟩
+          · left
+            apply headerGate_none_of_start
+            rw [startHeaderOk_parts _ _ _ (leBytes_length _ _) (by simp [hFn, hFo]; omega), ofLE_leBytes,
+              Nat.mod_eq_of_lt (by have := crc32_lt (sigFields ofs size crc); omega)]
+            simp [hc]
+  · right; right; left
+    simp [img, ops, crashImage, appendOps]
+
+/-- the writes of an append session on an archive in a good state (any archive reachable by a create session and
+    append sessions, `C08.Written`) have the append shape: they start at the end of the old packed streams -/
+theorem append_ops_shape {σ} (s : ArchState) (good : s.Good) (cfg : WConfig σ) (ms : List WMember) (us : List Nat)
+    (hms : ms ≠ [])
+    (hU : unpacksizesOf cfg.methodsMap ((sessionCompress cfg ms).1.chain.map (·.fed)) = some us)
+    (ops : List WriteOp) (h : appendSessionOps s.image cfg ms = some ops) :
+    ∃ ofs size crc tail, ops = appendOps (32 + s.area.length) (sigHeaderBytes ofs size crc) tail := by
+  have inv := good.inv
+  have hloc := locateHeader_assembled s.area s.hdr s.junk inv.areaBound good.hh
+  have hread := (inv.reads s.hdr s.junk good.hw good.hh).2.2.2
+  have happ := appendHeader_eq inv cfg ms us hU
+  have hemp : ms.isEmpty = false := by cases ms <;> simp_all
+  have hpos : appendPos s.c.readBack.header = 32 + s.area.length := by
+    simp only [appendPos, HParts.header, HParts.streams, HParts.readBack, inv.readBackPack_eq, inv.packpos, inv.packsum]
+  have hH : headerOfImage (imageOf s.area s.hdr s.junk) = some s.c.readBack.header := by
+    unfold headerOfImage imageOf
+    rw [hloc]
+    simp only [bind, Option.bind, hread]
+  unfold appendSessionOps ArchState.image at h
+  rw [hH] at h
+  simp only [bind, Option.bind, hemp, Bool.false_eq_true, if_false, happ, Option.map_some, hpos] at h
+  cases hW : writeHeaderRaw true (appendComps s.c cfg ms us).header (32 + s.area.length + (sessionCompress cfg ms).1.out.length) with
+  | none => simp [hW] at h
+  | some hdr' =>
+    simp only [hW, pure, Option.some.injEq] at h
+    exact ⟨_, _, _, _, h.symm⟩
+
+/-- **C14 for append sessions on every archive py7zr can have written** (raw header mode): the verdict of
+    `append_crash_verdict` with the state's own packed area and header. -/
+theorem good_append_crash_verdict {σ} (s : ArchState) (good : s.Good) (cfg : WConfig σ) (ms : List WMember) (us : List Nat)
+    (hms : ms ≠ [])
+    (hU : unpacksizesOf cfg.methodsMap ((sessionCompress cfg ms).1.chain.map (·.fed)) = some us)
+    (ops : List WriteOp) (h : appendSessionOps s.image cfg ms = some ops) (n k : Nat) :
+    headerGate (crashImage s.image ops n k) = none ∨
+    (headerGate (crashImage s.image ops n k) = some s.hdr ∧
+      (crashImage s.image ops n k).take (32 + s.area.length) = s.image.take (32 + s.area.length)) ∨
+    crashImage s.image ops n k = applyAll s.image ops ∨
+    ∃ a b : Bytes, a.length = b.length ∧ a ≠ b ∧ crc32 a = crc32 b := by
+  obtain ⟨ofs, size, crc, tail, rfl⟩ := append_ops_shape s good cfg ms us hms hU ops h
+  have himg : s.image = sigHeaderBytes s.area.length s.hdr.length (crc32 s.hdr) ++ s.area ++ (s.hdr ++ s.junk) := by
+    simp [ArchState.image, imageOf, List.append_assoc]
+  rw [himg]
+  rcases append_crash_verdict s.area s.hdr s.junk tail ofs size crc n k good.inv.areaBound good.hh with h1 | h2 | h3 | ⟨a, b, h4, h5, h6, _⟩
+  · exact Or.inl h1
+  · exact Or.inr (Or.inl h2)
+  · exact Or.inr (Or.inr (Or.inl h3))
+  · exact Or.inr (Or.inr (Or.inr ⟨a, b, h4, h5, h6⟩))
+
 example : startHeaderOk skeleton = false := by decide +kernel
+-- concrete crash points: a create session torn inside the CRC field, inside the fields, and complete
+example : startHeaderOk (crashImage [] (createOps (sigHeaderBytes 5 2 77) [1, 2, 3, 4, 5, 1, 0]) 2 10) = false ∧
+    startHeaderOk (crashImage [] (createOps (sigHeaderBytes 5 2 77) [1, 2, 3, 4, 5, 1, 0]) 2 21) = false ∧
+    startHeaderOk (crashImage [] (createOps (sigHeaderBytes 5 2 77) [1, 2, 3, 4, 5, 1, 0]) 2 32) = true := by decide +kernel
+-- an append cut inside the data write that has destroyed the old header: both gates, then rejection
+example : headerGate (crashImage (sigHeaderBytes 2 2 (crc32 [1, 0]) ++ [9, 9] ++ ([1, 0] ++ []))
+      (appendOps 34 (sigHeaderBytes 4 2 (crc32 [1, 0])) [8, 8, 1, 0]) 0 1) = none ∧
+    headerGate (sigHeaderBytes 2 2 (crc32 [1, 0]) ++ [9, 9] ++ ([1, 0] ++ [])) = some [1, 0] := by decide +kernel
 example : crashImage [] [⟨0, [1, 2, 3]⟩, ⟨5, [9, 9]⟩, ⟨1, [7]⟩] 2 0 = [1, 2, 3, 0, 0, 9, 9] ∧
     applyAll [] [⟨0, [1, 2, 3]⟩, ⟨5, [9, 9]⟩, ⟨1, [7]⟩] = [1, 7, 3, 0, 0, 9, 9] := by decide
 
